@@ -256,3 +256,52 @@ func VerifC14Sync() {
 	}
 	verifReach("sync.done")
 }
+
+
+// VerifC14LatestRecord (sync mode, several recovery slots): each slot keeps one "latest" record. Units are
+// committed one at a time in stream order, so the resume point is the record with the greatest end offset
+// (unit numbering restarts after a root-checkpoint override and says nothing across slots); of two records with
+// the same end offset the later written one. The real LoadBisyncLatestStartRecord over 3 slots, any subset
+// of them holding a record with symbolic sequence number, end offset and write time.
+func VerifC14LatestRecord() {
+	f := verifNewFake()
+	name := "redis-gunyu-checkpoint-bisync:aa01"
+	slots := []uint16{1, 2, 3}
+	var recs []*checkpoint.BisyncCommitRecord
+	for _, slot := range slots {
+		if verifChoose("present", 2) == 0 {
+			continue
+		}
+		r := &checkpoint.BisyncCommitRecord{RecordType: "latest", Version: "v", RunID: "rid1", SyncerID: "in", Slot: slot}
+		r.Key = checkpoint.BisyncLatestCheckpointKey(name, checkpoint.BisyncSlotTag(slot))
+		r.UnitSeq = verifI64("seq")
+		r.EndOffset = verifI64("off")
+		r.MTime = verifI64("mtime")
+		verifAssume(verifAnd(r.UnitSeq >= 1, r.UnitSeq <= 8))
+		verifAssume(verifAnd(r.EndOffset >= 1, r.EndOffset < 1<<40))
+		verifAssume(verifAnd(r.MTime >= 1, r.MTime < 1<<40))
+		r.StartOffset = r.EndOffset - 1
+		f.request("hset", append([]interface{}{r.Key}, r.HashArgs()...))
+		recs = append(recs, r)
+	}
+	best, cnt, err := checkpoint.LoadBisyncLatestStartRecord(f, name, slots, []string{"rid1"})
+	verifAssert(err == nil, "C14.latest.error")
+	if err != nil {
+		return
+	}
+	verifAssert(cnt == len(recs), "C14.latest.count")
+	if len(recs) == 0 {
+		verifAssert(best == nil, "C14.latest.invented-record")
+		return
+	}
+	verifAssert(best != nil, "C14.latest.record-lost")
+	if best == nil {
+		return
+	}
+	for _, r := range recs {
+		verifAssert(best.EndOffset >= r.EndOffset, "C14.latest.resume-behind-a-committed-unit")
+		verifAssert(verifImplies(best.EndOffset == r.EndOffset, best.MTime >= r.MTime), "C14.latest.older-duplicate-wins")
+	}
+	verifCover(len(recs) >= 2, "c14.latest.several-slots")
+	verifReach("c14.latest.done")
+}
